@@ -314,8 +314,9 @@ def bfs(harness, cfg, depth, collector, seed=0, merge_all=False, keep_states=Fal
 # ----------------------------------------------------------------------------------------------
 # cooperative peer script (DESIGN section 5) -- decided from the world only
 class Script(object):
-    def __init__(self, cfg, open_name='OPEN_OK', ka_name='KA', peer_hold=90, refuse_first=0):
+    def __init__(self, cfg, open_name='OPEN_OK', ka_name='KA', peer_hold=90, refuse_first=0, connect_latency=0.0):
         self.cfg = cfg
+        self.connect_latency = connect_latency     # seconds between connectTCP and the peer's answer (accept or refuse)
         self.open_name = open_name
         self.ka_name = ka_name
         self.peer_hold = peer_hold
@@ -348,6 +349,13 @@ class Script(object):
         if dis:
             return ('CLOSE_DONE', ll.index(dis[0]))
         con = w.connecting()
+        if con and self.connect_latency:
+            ready = con[0].started_at + self.connect_latency
+            if s.now < ready - 1e-9:
+                due = w.due()
+                if due and due[0].time <= ready:
+                    return ('TICK', 0)           # whatever is due before the peer answers fires first
+                return ('WAIT', ready - s.now)
         if con:
             if self.refused < self.refuse_first:
                 self.refused += 1
